@@ -68,9 +68,9 @@ def run_case(spec):
                     i = rng.randrange(len(tx.exons) - 1)
                     s, e = tx.exons[i][1], tx.exons[i + 1][0]          # the intron in gene coordinates
                     ds = rng.choice([0, 0, srange[0], srange[1], srange[0] - 2, srange[1] + 2])
-                    de = rng.choice([0, 0, erange[1], erange[1] + 3, -rng.randint(1, min(20, e - s - 4))])
+                    de = rng.choice([0, 0, erange[1], erange[1] + 3, -rng.randint(1, max(1, min(20, e - s - 4)))])
                     cs, ce_ = s + ds, e + de
-                    if ce_ - cs < 3 or cs < tx.exons[i][0] + 1:
+                    if ce_ - cs < 3 or cs < tx.exons[i][0] + 1 or ce_ > len(gene) or ce_ > tx.exons[i + 1][1]:
                         continue
                     blk = G((cs, ce_))
                     row = [gene.chrom, blk[0], blk[1], f'circular_RNA/{reads}', 0, st, blk[0], blk[0], '0,0,0', 1, str(blk[1] - blk[0]), '0', reads,
